@@ -472,6 +472,13 @@ func directedInboxFlood(rep *Report, seed int64) {
 	defer func() {
 		if !d.stop() {
 			fail("C16", "shutdown-hangs", "directed flood scenario: WaitUntilShutdown did not return")
+			return
+		}
+		time.Sleep(100 * time.Millisecond)
+		var b bytes.Buffer
+		pprof.Lookup("goroutine").WriteTo(&b, 1)
+		if k := strings.Count(b.String(), "lean-helix-go.(*MainLoop).run"); k > 0 {
+			fail("C16", "goroutine-leak", fmt.Sprintf("directed flood scenario: %d goroutine(s) started by the main loop are still alive after WaitUntilShutdown returned", k))
 		}
 	}()
 	rep.count("runtime:directed-inbox-flood")
@@ -806,6 +813,7 @@ func directedFailingMembershipThenShutdown(rep *Report, seed int64) {
 	before := atomic.LoadInt64(&d.mem.calls)
 	if !d.stop() {
 		rep.finding("C16", "shutdown-hangs", fmt.Sprintf("directed: the Membership keeps failing for height 2 (not a context error); after cancellation WaitUntilShutdown did not return within 4.5 s (%d committee requests before, %d after the cancellation)", before, atomic.LoadInt64(&d.mem.calls)-before), map[string]interface{}{"script": "failing-membership-then-shutdown"})
+		rep.finding("C15", "spi-loop-not-released", fmt.Sprintf("directed: the committee request of height 2 keeps failing; after the Run context was cancelled the worker went on calling RequestOrderedCommittee under the cancelled context (%d calls after the cancellation) instead of returning", atomic.LoadInt64(&d.mem.calls)-before), map[string]interface{}{"script": "failing-membership-then-shutdown"})
 		return
 	}
 	after := atomic.LoadInt64(&d.mem.calls)
